@@ -185,6 +185,68 @@ def judgeFrames (ct ot : List String) : Option Verdict := do
   pure { model := render m, spec := Robust.verdict { cls := cls, stalled := stalled, hand := oh, raw := or_ },
          trivial := !(obsSteps.any (fun x => x.startsWith "m" || x.startsWith "d" || x == "ok")) }
 
+/-- the replay window as documented (64 records): a sequence number is accepted when it has
+not been seen and is less than 64 behind the highest one seen -/
+def replay64 (seen : List Nat) (seq : Nat) : Bool :=
+  let top := seen.foldl max 0
+  !seen.contains seq && (seen.isEmpty || seq + 64 > top)
+
+/-- datagram-stack loop cases -/
+def judgeFramesD (ct ot : List String) : Option Verdict := do
+  let hv := (kv ct "hv").getD "0" == "1"
+  let dg := (kv ct "dgrams").getD "-"
+  let dgrams ← if dg == "-" then some [] else (dg.splitOn "/").mapM Hex.decode
+  let ops := ((kv ct "ops").getD "").splitOn ","
+  let obsSteps := ((kv ot "steps").getD "").splitOn ","
+  let L := limitsD
+  let s0 : ParsersLoopD.StD := { ParsersLoopD.StD.init dgrams with haveVers := hv, vers := Facts.dtlcp.VersionTLCP }
+  let show_ (o : Outcome Unit) : String := match o with
+    | .ok _ => "ok" | .err .timeout => "tmo" | .err _ => "err" | .panic => "panic"
+  let rec go (s : ParsersLoopD.StD) (ops obs : List String) (accS accL : List String) : List String × List String :=
+    match ops with
+    | [] => (accS.reverse, accL.reverse)
+    | op :: rest =>
+      let o := obs.headD ""
+      let lib : ParsersLoopD.LibD := { dec := fun _ => none, replayOk := replay64, unmarshalOk := fun _ => o.startsWith "m",
+                                       dwell := false, stale := fun _ => false, cookieOk := fun _ => true }
+      let (s1, res) : ParsersLoopD.StD × String :=
+        if op == "H" then
+          match ParsersLoopD.readHandshake L lib s with
+          | (s1, .ok (t, n)) => (s1, s!"m{t.toNat}:{n}")
+          | (s1, .err .timeout) => (s1, "tmo")
+          | (s1, .err _) => (s1, "err")
+          | (s1, .panic) => (s1, "panic")
+        else if op == "R" then
+          let r := ParsersLoopD.readRecord L lib s false
+          (r.1, show_ r.2)
+        else if op == "F" then ({ s with complete := true }, "ok")
+        else (s, "skip")
+      let pb := s1.pending.foldl (fun a b => a + b.bytes) 0
+      let l := s!"{s1.hand.length}.{s1.raw.length}.{s1.retry}.{s1.pending.length}.{pb}"
+      if res == "panic" then ((res :: accS).reverse, (l :: accL).reverse)
+      else go s1 rest obs.tail (res :: accS) (l :: accL)
+  let (ps, pl) := go s0 ops obsSteps [] []
+  let m := subst (subst ot "steps" (",".intercalate ps)) "lens" (",".intercalate pl)
+  let obsLens := ((kv ot "lens").getD "").splitOn ","
+  let nums := obsLens.map (fun e => (e.splitOn ".").map (fun x => x.toNat?.getD 0))
+  let col (i : Nat) : Nat := nums.foldl (fun a l => max a ((l.drop i).headD 0)) 0
+  let cls := if obsSteps.contains "panic" then "panic" else if obsSteps.contains "err" then "err" else "ok"
+  let hsCalls := (ops.filter (· == "H")).length
+  pure { model := render m,
+         spec := Robust.verdict { cls := cls, stalled := obsSteps.contains "stall", hand := col 0, raw := col 1,
+                                  pending := col 3, pendingBytes := col 4, hsCalls := max 1 hsCalls },
+         trivial := !(obsSteps.any (fun x => x.startsWith "m" || x == "ok")) }
+
+/-- live endpoints: the model has nothing to add to the observation (the class is an input of
+the environment: crypto, timing); the spec is the judge -/
+def judgeLive (ot : List String) : Option Verdict := do
+  let cls ← kv ot "out"
+  if cls == "setup" || cls == "badcase" then none else
+  let n (k : String) : Nat := ((kv ot k).bind String.toNat?).getD 0
+  let obs : Robust.Obs := { cls := cls, stalled := (kv ot "stalled").getD "0" == "1", hand := n "hand", raw := n "raw",
+                            pending := n "pend", pendingBytes := n "pendb", hsCalls := max 1 (n "hs") }
+  pure { model := render ot, spec := Robust.verdict obs, trivial := false }
+
 def judge (c o : String) : Option Verdict := do
   let ct := tokens c
   let ot := tokens o
@@ -192,6 +254,8 @@ def judge (c o : String) : Option Verdict := do
   if fn.startsWith "ecc_" || fn.startsWith "dhe_" then judgeKX fn ct ot
   else if fn.startsWith "rec_" then judgeRec fn ct ot
   else if fn == "frames" then judgeFrames ct ot
+  else if fn == "framesd" then judgeFramesD ct ot
+  else if fn.startsWith "live_" then judgeLive ot
   else none
 
 end Gotlcp.Oracle.C09
